@@ -185,7 +185,7 @@ def run_case(task):
                         mc = m.call(fmt, "canon", view)
                         if mc != mr:
                             out["corr"].append(("canon", "canon differs from read(write)", G.describe(s), {}))
-                    if rv is not None:
+                    if rv is not None and not why:       # the hypotheses concern representable structures only
                         for msg in geometry_hypotheses(fmt, s1):
                             out["geo"].append(msg)
                         # the re-read structure as an input of the writer model (stored auxiliaries, flipped flags ...)
